@@ -416,8 +416,6 @@ type fctx struct {
 	recv        string // receiver variable name ("" if none)
 	recvVal     bool   // pointer receiver modelled as the struct itself (recv_nonnil)
 	recvMut     bool   // receiver is a pointer whose fields are assigned
-	// paramMut: pointer-to-struct parameters whose fields are assigned (returned after the receiver).
-	paramMut    []string
 	results     []*types.Var
 	named       bool
 	opaque      []string // extra parameters "name : Type"
@@ -430,6 +428,7 @@ type fctx struct {
 	localFns    map[string]*ast.FuncLit
 	opaqueVals  map[string]string
 	opaqueCalls map[*ast.CallExpr]string
+	paramMut    []string // pointer parameters whose fields are assigned (returned after the receiver)
 }
 
 type ex struct {
